@@ -3,6 +3,12 @@ import Biogo.Model.Filter
 namespace Biogo.Generated.FilterFacts
 
 /-- the retirement rule of align/pals/filter/filter.go as parsed from the source -/
-def rule : Biogo.Filter.Rule := { retireSubMaxError := true, flushFromLastTick := true }
+def rule : Biogo.Filter.Rule := { retireSubMaxError := true, flushFromLastTick := true, tickByPosition := true, remakeTubes := true }
+
+/-- the fields of a Filter assigned at the head of (*Filter).Filter, in order -/
+def perCallFields : List String := ["selfAlign", "complement", "morass", "k", "minKmersPerHit", "maxKmerDist"]
+
+/-- every other assignment to a field of a Filter in filter.go (New builds it by a composite literal), in source order -/
+def otherFieldWrites : List String := ["tubes", "tubes"]
 
 end Biogo.Generated.FilterFacts
